@@ -8,6 +8,8 @@ tabstops-auto:        abbreviations without explicit fields: one tabstop per emp
 tabstops-explicit:    explicit ${n} / ${n:ph}: differences inside one value kept, number sets of different values disjoint
 tabstops-comment:     the same with comments on and explicit fields in the attribute values that the comments repeat (round 4)
 callback-positions-multiline-literal:  positions, for quoted literals (stylesheet strings, attribute values) that span lines (round 4)
+tabstops-empty-forms: tabstops-auto over every spelling of "no value" ([t] [t=] [t=""] [t=''] [t={}]), snippet defaults repeated
+                      by the abbreviation, all nine markup syntaxes, attribute quote style (round 5)
 """
 import bisect
 import random
@@ -254,6 +256,62 @@ def _check_tabstops(nodes, syntax, options, comments):
 
 
 # ---------------------------------------------------------------------------------------------
+# round 5: the spelling of an empty attribute value
+
+INDENT_SYNTAXES = ['pug', 'haml', 'slim']
+_CLOSER = {'"': '"', "'": "'", '{': '}'}
+
+
+def check_tabstops_empty_forms(nodes, syntax, options):
+    """no explicit field anywhere: the output.field calls in output order are exactly the attributes without a value
+    (however that was written) and the empty, not self-closed leaves in document order, numbered 1, 2, 3, ...; a tabstop
+    of an attribute is the whole value of that attribute (name=<quote>tabstop<quote>)"""
+    from .c13_gen import render_forms
+    abbr = render_forms(nodes)
+    final, calls = _run(abbr, 'markup', syntax, options, None, 'tm')
+    fields = sorted([c for c in calls if c[0] == 'field'], key=lambda c: c[3])
+    where = '%r (%s, %r) -> %r: ' % (abbr, syntax, options, final)
+    slots = [s for s in _slots(nodes, []) if s[0] == 'leaf' or (s[0] == 'attr' and s[3] is None)]
+    for n, slot in enumerate(slots):
+        if n >= len(fields):
+            return where + '%d tabstop(s) expected (%r), output has %d: none for %r' % (len(slots), slots, len(fields), slot)
+        _, (gi, gph), ret, off, _, _ = fields[n]
+        if gph:
+            return where + 'tabstop %d has placeholder %r, nothing was written for %r' % (gi, gph, slot)
+        if gi != n + 1:
+            return where + 'tabstop of %r has number %d, expected %d' % (slot, gi, n + 1)
+        if final[off:off + len(ret)] != ret:
+            return where + 'tabstop %d is not at its reported offset %d' % (gi, off)
+        before = final[:off]
+        after = final[off + len(ret):]
+        if slot[0] == 'attr':
+            m = re.search(r'(?:^|[\s(,])' + re.escape(slot[2]) + r'=(["\'{])$', before)
+            if not m or after[:1] != _CLOSER[m.group(1)]:
+                return where + 'tabstop %d expected as the whole value of attribute %s of %s, found between %r and %r' % (
+                    gi, slot[2], slot[1], before[-20:], after[:20])
+        elif syntax not in INDENT_SYNTAXES:
+            if not re.search(r'<%s(\s[^<>]*)?>\s*$' % re.escape(slot[1]), before) or not re.match(r'\s*</%s>' % re.escape(slot[1]), after):
+                return where + 'tabstop %d expected as the content of leaf <%s>, found between %r and %r' % (gi, slot[1], before[-20:], after[:20])
+        # (indentation syntaxes: an element without id / class / format has no fixed text around its content; number and
+        # order are checked, the place of a leaf tabstop is not)
+    if len(fields) != len(slots):
+        return where + '%d tabstop(s) more than attributes without value / empty leaves written: %r' % (
+            len(fields) - len(slots), [c[1] for c in fields[len(slots):]])
+    return None
+
+
+def empty_form_cases(rng, n):
+    from .c13_gen import empty_form_tree
+    for i in range(n):
+        syn = MARKUP_SYNTAXES[i % len(MARKUP_SYNTAXES)]
+        nodes = empty_form_tree(rng, syn in INDENT_SYNTAXES)
+        o = random_options(rng) if rng.random() < 0.8 else {}
+        o.pop('stylesheet.json', None)
+        q = rng.choice([None, None, 'single', 'double'])
+        if q:
+            o['output.attributeQuotes'] = q
+        yield (nodes, syn, o)
+
 
 MODES = ['tm', 'marked', 'plain', 'drop', 'empty', 'addbreak', 'oneline', 'trail-lf', 'trail-crlf', 'trail-many', 'lead-lf']
 
@@ -425,4 +483,21 @@ def run(tier, seed):
                 'as callback-positions', exhaustive=False)
     run_parallel_sorted(c6, 'bounded.c13', 'check_positions', literal_cases(rng4, nl, lrows), chunk=40)
     c6.done()
-    return [c1, c2, c3, c4, c5, c6]
+
+    # round 5 (own generator again: the cases of the clauses above stay what they were)
+    rng5 = random.Random(seed * 7919 + 5)
+    ne = 12000 if quick else 120000
+    c7 = Clause('tabstops-empty-forms', 'B',
+                'seeded random trees without explicit fields as in tabstops-auto, in which every attribute without a value is written '
+                'in one of the spellings [t] / [t=] / [t=""] / [t=\'\'] / [t={}] (40 %% of the valued attributes are emptied too); a quarter '
+                'of the elements are snippet elements with default attributes (a, form, map; img for voids), half of '
+                'whose defaults are repeated by the abbreviation in one of the spellings; output.attributeQuotes single / double / '
+                'not given next to the random output options of the other clauses',
+                '%d trees (each with at least one attribute without a value), depth <= 4, width <= 3, round-robin over all markup syntaxes %r' % (ne, MARKUP_SYNTAXES),
+                'as tabstops-auto: the recorded output.field calls in output order are exactly the attributes without a value and the '
+                'empty not self-closed leaves in document order, numbered 1..N, no placeholder; an attribute tabstop is the whole value '
+                '(name=, quote or brace, tabstop, matching closer); a leaf tabstop sits between its tags (tag syntaxes; place of a leaf '
+                'tabstop not checked in pug, haml, slim)', exhaustive=False)
+    run_parallel_sorted(c7, 'bounded.c13', 'check_tabstops_empty_forms', empty_form_cases(rng5, ne), chunk=300)
+    c7.done()
+    return [c1, c2, c3, c4, c5, c6, c7]
